@@ -343,7 +343,11 @@ func supervise(c *engine.Ctx) {
 		tail := &tailBuf{}
 		cmd.Stdout = tail
 		cmd.Stderr = tail
+		// the child is watched itself
+		c.AwaitingChild(true)
 		werr := cmd.Run()
+		c.AwaitingChild(false)
+
 		timedOut := ctx.Err() != nil
 
 		cancel()
